@@ -503,6 +503,7 @@ package verify
 //@   ensures[fresh-pool] r != nil ==> fresh(r)
 
 //@ func RootOfTrustToOptions(rot) (r, err)
+//@   records rootoftrust
 //@   requires rot != nil
 //@   ensures[flags] err == nil ==> r != nil && r.CheckRevocations == rot.CheckCrl && r.GetCollateral == rot.GetCollateral && r.Now == nil && r.Getter == nil
 //@   ensures[embedded-root-when-unconfigured] err == nil && len(rot.CabundlePaths) == 0 && len(rot.Cabundles) == 0 ==> r.TrustedRoots == nil
